@@ -26,6 +26,8 @@ RULE = (
     "every single target and the full target set; every definition file that ref.ns places outside the closure (lookup roots; for "
     "read_files also the targets' own roots) x 42 replacement texts (token garbage, one per static-rule class, failing assert, @print, "
     "another kind / sealing / extent than its sibling versions, references to missing or cyclic types, huge / empty / binary text). "
+    "History part: every (configuration, operation, definition inside the closure broken by garbage / by a failing assert placed after its references) "
+    "followed in the same process by each of 5 unrelated valid calls, whose outcome must equal the reference closure and the same call made before. "
     "Non-trivial iff the replacement differs from the original text; distinct by canonical hash of the tuple"
 )
 ASSUMPTIONS = [
@@ -84,7 +86,28 @@ def graph_configs():
 def plan(tier):
     shards = [{"kind": "config", "config": name} for name in all_configs()]
     shards += [{"kind": "graphs", "part": p, "parts": 16} for p in range(16)]
+    shards += [{"kind": "history", "part": p, "parts": 16} for p in range(16)]
     return shards
+
+
+# calls made AFTER a failed call in the same process: definitions that only the earlier call looked at are outside their closure
+SECOND_CALLS = [("no-references", "rn", None), ("no-references", "rf", [0]), ("sibling-versions", "rf", [0]), ("lookup-with-own-deps", "rn", None), ("same-root-other-versions", "rf", [3])]
+BREAKAGES = ["garbage", "assert-after-references", "intact"]
+
+
+def history_cases():
+    for name, cfg in sorted(all_configs().items()):
+        for op, tsel in operations(cfg):
+            out = outside(cfg, op, tsel)
+            if out is None:
+                continue
+            inside = [i for i in range(len(cfg["defs"])) if i not in out]
+            for i in inside:
+                for how in BREAKAGES:
+                    if how == "intact" and i != inside[0]:
+                        continue
+                    for k in range(len(SECOND_CALLS)):
+                        yield {"kind": "history", "config": name, "op": op, "targets": tsel, "broken": i, "how": how, "second": k}
 
 
 def operations(cfg):
@@ -114,6 +137,11 @@ def outside(cfg, op, tsel):
 
 
 def cases(shard, tier):
+    if shard["kind"] == "history":
+        for k, c in enumerate(history_cases()):
+            if k % shard["parts"] == shard["part"]:
+                yield c
+        return
     if shard["kind"] == "config":
         cfg = all_configs()[shard["config"]]
         for op, tsel in operations(cfg):
@@ -178,7 +206,59 @@ def run(base, cfg, op, tsel):
     return out, prints, [api.rel(base, p) for p in _opened]
 
 
+def check_history(case, R: engine.Acc):
+    cfg = get_config(case["config"])
+    files = N.files_of(cfg)
+    files.update(cfg.get("extra", {}))
+    d = cfg["defs"][case["broken"]]
+    vfile = N.file_of(d)
+    if case["how"] == "garbage":
+        files[vfile] = "$$$ not dsdl $$$\n"
+    elif case["how"] == "assert-after-references":
+        assert "@sealed" in files[vfile] or d.get("text") is not None
+        files[vfile] = files[vfile].replace("@sealed", "@assert false\n@sealed", 1) if "@sealed" in files[vfile] else "@assert false\n" + files[vfile]
+    sname, sop, stsel = SECOND_CALLS[case["second"]]
+    scfg = get_config(sname)
+    R.case([case[k] for k in ("config", "op", "targets", "broken", "how", "second")], nontrivial=case["how"] != "intact", sample=False)
+    b1, b2 = ws.fresh(), ws.fresh()
+    try:
+        ws.write_tree(b1, files)
+        ws.write_tree(b2, N.files_of(scfg))
+        for base, c in ((b1, cfg), (b2, scfg)):
+            for x in [c["root"]] + c["lookups"]:
+                (base / x).mkdir(parents=True, exist_ok=True)
+        solo = run(b2, scfg, sop, stsel)
+        first = run(b1, cfg, case["op"], case["targets"])
+        R.outcome("first-call-failed" if "error" in first[0] else "first-call-succeeded")
+        after = run(b2, scfg, sop, stsel)
+        # reference verdict for the second call: its configurations are valid, so the names are what ref.ns says
+        if sop == "rn":
+            exp_names = [N.expected_read_namespace(scfg, scfg["root"], scfg["lookups"]), None]
+        else:
+            t = [scfg["defs"][i] for i in stsel]
+            exp_names = list(N.expected_read_files(scfg, t, [scfg["root"]] + scfg["lookups"]))
+        for label, got in (("before", solo), ("after", after)):
+            o = got[0]
+            names = None
+            if "ok" in o:
+                names = [[str(x["str"]) for x in o["ok"]], None] if sop == "rn" else [[str(x["str"]) for x in o["ok"][0]], [str(x["str"]) for x in o["ok"][1]]]
+            if names is None or sorted(names[0]) != sorted(exp_names[0]) or (sop == "rf" and sorted(names[1]) != sorted(exp_names[1])):
+                R.outcome("history-influenced")
+                R.violation("earlier-call-changes-%s" % ("error" if "error" in o else "result"), "the outcome depends only on the targets and their closure: definitions seen only by an earlier (failed) call in the same process do not influence it", case, observed=o.get("error", names), expected=exp_names)
+                return
+        if after != solo:
+            R.outcome("history-influenced")
+            R.violation("earlier-call-changes-observations", "the outcome (types, prints, files opened) depends only on the targets and their closure, not on earlier calls in the process", case, observed=[after[1], after[2]], expected=[solo[1], solo[2]])
+            return
+        R.outcome("history-independent")
+    finally:
+        ws.remove(b1)
+        ws.remove(b2)
+
+
 def check_case(case, R: engine.Acc):
+    if case.get("kind") == "history":
+        return check_history(case, R)
     cfg = get_config(case["config"])
     defs = cfg["defs"]
     victim = defs[case["outside"]]
